@@ -25,6 +25,19 @@ pub mod sync {
     impl<T> View for Mutex<T> { type V = T; uninterp spec fn view(&self) -> T; }
     pub struct PoisonError { pub p: u8 }
     impl ::std::fmt::Debug for PoisonError { #[verifier::external_body] fn fmt(&self, f: &mut ::std::fmt::Formatter<'_>) -> ::std::fmt::Result { Ok(()) } }
+    /// std::sync::OnceLock: WEAK - the stored value may come from any earlier initialisation in
+    /// this process, so nothing is known about what `get_or_init` returns
+    #[verifier::external_body]
+    #[verifier::reject_recursive_types(T)]
+    pub struct OnceLock<T> { t: ::std::marker::PhantomData<T> }
+    impl<T> OnceLock<T> {
+        #[verifier::external_body]
+        pub const fn new() -> (r: OnceLock<T>) { OnceLock { t: ::std::marker::PhantomData } }
+        #[verifier::external_body]
+        pub fn get_or_init<F: FnOnce() -> T>(&self, f: F) -> (r: &T) requires call_requires(f, ()) { unimplemented!() }
+        #[verifier::external_body]
+        pub fn get(&self) -> (r: Option<&T>) { unimplemented!() }
+    }
     impl<T> Mutex<T> {
         #[verifier::external_body]
         pub fn new(t: T) -> (r: Mutex<T>) ensures r@ == t { unimplemented!() }
@@ -32,6 +45,24 @@ pub mod sync {
         pub fn lock(&mut self) -> (r: Result<&mut T, PoisonError>)
             ensures r is Ok, *r->Ok_0 == old(self)@, final(self)@ == *final(r->Ok_0)
         { unimplemented!() }
+    }
+}
+pub mod ffi {
+    use vstd::prelude::*;
+    /// an OS string (a path component); nothing is known about its text
+    #[verifier::external_body]
+    pub struct OsStr { s: u8 }
+    #[verifier::external_body]
+    pub struct OsString { s: u8 }
+    impl OsStr {
+        #[verifier::external_body]
+        pub fn to_str(&self) -> (r: Option<&str>) { unimplemented!() }
+        #[verifier::external_body]
+        pub fn to_string_lossy(&self) -> (r: String) { unimplemented!() }
+        #[verifier::external_body]
+        pub fn to_os_string(&self) -> (r: OsString) { unimplemented!() }
+        #[verifier::external_body]
+        pub fn len(&self) -> (r: usize) { unimplemented!() }
     }
 }
 pub mod os {
